@@ -50,7 +50,7 @@ impl log4rs::append::Append for NestAppender {
             }
         }
         if self.fails {
-            Err(anyhow::anyhow!("{}", self.idx))
+            Err(varied_error(format!("{}", self.idx)))
         } else {
             Ok(())
         }
